@@ -1880,18 +1880,18 @@ func isErrorType(t types.Type) bool {
 // ---- R62: event posts are not lossy ----
 
 func init() {
-	register(&Rule{ID: "R62", Title: "event posts are not lossy: a consumer hands a delivered event to its node's mailbox with a send that cannot be skipped (no select with a default clause around it)", Min: 2, Run: ruleR62})
+	register(&Rule{ID: "R62", Title: "mailbox posts are not lossy: a request or delivered event is handed to a mailbox with a send that cannot be skipped (no select with a default clause around it)", Min: 20, Run: ruleR62})
 }
 
 func ruleR62(c *Ctx) {
 	p := c.P
-	what := "an event delivered to a listening node must reach that node's goroutine; a post placed in a select with a default clause silently drops the event whenever the mailbox happens to be full, so a listener that should continue never does"
+	what := "a message posted to a node's (or the process set's) mailbox is a request or a delivered event that its goroutine must see; a post placed in a select with a default clause silently drops it whenever the mailbox happens to be full, so a listener that should continue, or a process that should be instantiated, never is"
 	for _, f := range p.Funcs {
-		if f.Obj == nil || f.Obj.Name() != "ConsumeEvent" || !isTargetPkg(p, f.Pkg.PkgPath) || f.Body == nil {
+		if !isTargetPkg(p, f.Pkg.PkgPath) || f.Body == nil {
 			continue
 		}
 		in := info(f)
-		ast.Inspect(f.Body, func(n ast.Node) bool {
+		inspectNoLit(f.Body, func(n ast.Node) bool {
 			ss, ok := n.(*ast.SendStmt)
 			if !ok || !isMailboxChan(in.TypeOf(ss.Chan)) {
 				return true
@@ -1906,7 +1906,710 @@ func ruleR62(c *Ctx) {
 					}
 				}
 			}
-			c.Check(!lossy, f, ss, "post of the delivered event to "+exprString(ss.Chan), what, ifElse(lossy, "the send is a case of a select with a default clause", "the send cannot be skipped"))
+			mt := "message"
+			if nt := namedOf(in.TypeOf(ss.Value)); nt != nil {
+				mt = nt.Obj().Name()
+			}
+			c.Check(!lossy, f, ss, "post of "+mt+" to "+exprString(ss.Chan), what, ifElse(lossy, "the send is a case of a select with a default clause", "the send cannot be skipped"))
+			return true
+		})
+	}
+}
+
+// ---- R63: swap-remove direction ----
+
+func init() {
+	register(&Rule{ID: "R63", Title: "swap-remove: when an element is removed from an unordered slice by overwrite-and-truncate, the last element is moved into the hole (not the hole's element onto the last position)", Min: 3, Run: ruleR63})
+}
+
+func ruleR63(c *Ctx) {
+	p := c.P
+	what := "removing element j of an unordered list by `s[j] = s[last]; s = s[:last]` keeps every other element; the reverse copy (`s[last] = s[j]`) throws away the still-needed last element and keeps the finished one (a partially matched event set is lost, or a subscriber that asked to leave stays while another is dropped)"
+	for _, f := range p.Funcs {
+		if !isTargetPkg(p, f.Pkg.PkgPath) || f.Body == nil {
+			continue
+		}
+		in := info(f)
+		// `last` aliases: ident := len(X) - 1
+		isLenMinus1 := func(e ast.Expr, x ast.Expr) bool {
+			be, ok := unparen(e).(*ast.BinaryExpr)
+			if !ok || be.Op != token.SUB {
+				return false
+			}
+			if lit, ok := unparen(be.Y).(*ast.BasicLit); !ok || lit.Value != "1" {
+				return false
+			}
+			call, ok := unparen(be.X).(*ast.CallExpr)
+			return ok && isBuiltin(in, call, "len") && len(call.Args) == 1 && sameRef(in, call.Args[0], x)
+		}
+		aliasOf := func(id *ast.Ident, x ast.Expr) bool {
+			o := objOf(in, id)
+			if o == nil {
+				return false
+			}
+			res := false
+			inspectNoLit(f.Body, func(n ast.Node) bool {
+				if as, ok := n.(*ast.AssignStmt); ok && len(as.Lhs) == 1 && len(as.Rhs) == 1 {
+					if lid, ok := as.Lhs[0].(*ast.Ident); ok && objOf(in, lid) == o && isLenMinus1(as.Rhs[0], x) {
+						res = true
+					}
+				}
+				return true
+			})
+			return res
+		}
+		isLast := func(e ast.Expr, x ast.Expr) bool {
+			if isLenMinus1(e, x) {
+				return true
+			}
+			if id, ok := unparen(e).(*ast.Ident); ok {
+				return aliasOf(id, x)
+			}
+			return false
+		}
+		inspectNoLit(f.Body, func(n ast.Node) bool {
+			var list []ast.Stmt
+			switch x := n.(type) {
+			case *ast.BlockStmt:
+				list = x.List
+			case *ast.CaseClause:
+				list = x.Body
+			case *ast.CommClause:
+				list = x.Body
+			}
+			for i, st := range list {
+				as, ok := st.(*ast.AssignStmt)
+				if !ok || len(as.Lhs) != 1 || len(as.Rhs) != 1 {
+					continue
+				}
+				se, ok := unparen(as.Rhs[0]).(*ast.SliceExpr)
+				if !ok || se.Low != nil || se.High == nil || !sameRef(in, se.X, as.Lhs[0]) || !isLast(se.High, se.X) {
+					continue
+				}
+				// truncation by one; look back for the overwrite
+				for k := i - 1; k >= 0; k-- {
+					ov, ok := list[k].(*ast.AssignStmt)
+					if !ok || len(ov.Lhs) != 1 || len(ov.Rhs) != 1 {
+						continue
+					}
+					li, ok1 := unparen(ov.Lhs[0]).(*ast.IndexExpr)
+					ri, ok2 := unparen(ov.Rhs[0]).(*ast.IndexExpr)
+					if !ok1 || !ok2 || !sameRef(in, li.X, se.X) || !sameRef(in, ri.X, se.X) {
+						continue
+					}
+					good := isLast(ri.Index, se.X) && !isLast(li.Index, se.X)
+					c.Check(good, f, ov, "swap-remove on "+exprString(se.X), what,
+						fmt.Sprintf("overwrite `%s = %s` before the truncation: source is the last element: %v, destination is the last element: %v", exprString(ov.Lhs[0]), exprString(ov.Rhs[0]), isLast(ri.Index, se.X), isLast(li.Index, se.X)))
+					break
+				}
+			}
+			return true
+		})
+	}
+}
+
+// ---- R64: per-instance resources ----
+
+func init() {
+	register(&Rule{ID: "R64", Title: "per-instance resources: what is handed to a process instance created inside a loop (tracer, locator, generator) is itself created in that iteration, not shared by all instances the loop creates", Min: 1, Run: ruleR64})
+}
+
+func ruleR64(c *Ctx) {
+	p := c.P
+	what := "every instance created for a message gets resources of its own; a tracer (or other mutable object) created once outside the loop and handed to every instance makes each instance's watcher see the other instances' cease / flow traces, so the set is reported complete while an instance is still running"
+	for _, f := range p.Funcs {
+		if f.Pkg.PkgPath != pathBpmn || f.Body == nil {
+			continue
+		}
+		in := info(f)
+		inspectNoLit(f.Body, func(n ast.Node) bool {
+			call, ok := n.(*ast.CallExpr)
+			if !ok {
+				return true
+			}
+			fn := callee(in, call)
+			if fn == nil {
+				return true
+			}
+			sig, _ := fn.Type().(*types.Signature)
+			if sig == nil || sig.Results().Len() == 0 {
+				return true
+			}
+			rn := namedOf(sig.Results().At(0).Type())
+			if rn == nil || rn.Obj().Name() != "Process" || rn.Obj().Pkg() == nil || rn.Obj().Pkg().Path() != pathBpmn {
+				return true
+			}
+			// enclosing loop
+			var loop ast.Node
+			for cur := p.Parent(call); cur != nil; cur = p.Parent(cur) {
+				switch cur.(type) {
+				case *ast.ForStmt, *ast.RangeStmt:
+					loop = cur
+				}
+				if _, isFn := cur.(*ast.FuncDecl); isFn {
+					break
+				}
+			}
+			if loop == nil {
+				return true
+			}
+			var shared []string
+			for _, a := range call.Args {
+				ast.Inspect(a, func(z ast.Node) bool {
+					id, ok := z.(*ast.Ident)
+					if !ok {
+						return true
+					}
+					v, ok := in.Uses[id].(*types.Var)
+					if !ok || v.IsField() || v.Pkg() == nil {
+						return true
+					}
+					if v.Pos() >= loop.Pos() && v.Pos() <= loop.End() {
+						return true
+					}
+					if v.Pos() < f.Body.Pos() || v.Pos() > f.Body.End() {
+						return true // parameter / receiver
+					}
+					switch v.Type().Underlying().(type) {
+					case *types.Pointer, *types.Interface, *types.Map, *types.Chan:
+						if !isContextType(v.Type()) {
+							shared = append(shared, v.Name())
+						}
+					}
+					return true
+				})
+			}
+			c.Check(len(shared) == 0, f, call, "instance created in a loop by "+fn.Name(), what,
+				ifElse(len(shared) == 0, "every local object handed to the new instance is declared inside the loop iteration", "declared outside the loop and handed to every instance: "+strings.Join(shared, ", ")))
+			return true
+		})
+	}
+}
+
+// ---- R66: lossless item encoding ----
+
+func init() {
+	register(&Rule{ID: "R66", Title: "lossless item encoding: a number written into an item's textual value is formatted without a precision or a fixed-point verb, so parsing it back yields the number that was stored", Min: 4, Run: ruleR66})
+}
+
+func ruleR66(c *Ctx) {
+	p := c.P
+	what := "the textual form stored in an item (`ItemValue`) is parsed back on every read; a fixed-point or precision-limited format (`%f`, `%.3f`, `%e`, `%g` with precision) silently rounds the stored number (3.141592653589793 → 3.141593, 1e-07 → 0)"
+	for _, f := range p.Funcs {
+		if f.Body == nil || !(isTargetPkg(p, f.Pkg.PkgPath) || strings.HasSuffix(f.Pkg.PkgPath, "/schema")) {
+			continue
+		}
+		in := info(f)
+		inspectNoLit(f.Body, func(n ast.Node) bool {
+			as, ok := n.(*ast.AssignStmt)
+			if !ok || len(as.Lhs) != 1 || len(as.Rhs) != 1 {
+				return true
+			}
+			fv := fieldOf(in, as.Lhs[0])
+			if fv == nil || fv.Name() != "ItemValue" {
+				return true
+			}
+			call, ok := unparen(as.Rhs[0]).(*ast.CallExpr)
+			if !ok {
+				return true
+			}
+			fn := callee(in, call)
+			if fn == nil || fn.Pkg() == nil {
+				return true
+			}
+			switch {
+			case fn.Pkg().Path() == "fmt" && fn.Name() == "Sprintf" && len(call.Args) >= 1:
+				tv := in.Types[call.Args[0]]
+				if tv.Value == nil {
+					c.Bad(f, as, "format of the stored value", what, "the format string is not a constant (undecided)")
+					return true
+				}
+				fs := tv.Value.ExactString()
+				lossy := false
+				for i := 0; i+1 < len(fs); i++ {
+					if fs[i] != '%' {
+						continue
+					}
+					j := i + 1
+					for j < len(fs) && strings.ContainsRune("+-# 0123456789.", rune(fs[j])) {
+						if fs[j] == '.' {
+							lossy = true
+						}
+						j++
+					}
+					if j < len(fs) && strings.ContainsRune("feEgGxXob", rune(fs[j])) {
+						lossy = true
+					}
+					i = j
+				}
+				c.Check(!lossy, f, as, "format of the stored value", what, "format "+fs+ifElse(lossy, " limits precision or uses a fixed-point / exponent verb", " prints the shortest exact representation"))
+			case fn.Pkg().Path() == "strconv" && fn.Name() == "FormatFloat" && len(call.Args) == 4:
+				prec := in.Types[call.Args[2]]
+				okp := prec.Value != nil && prec.Value.ExactString() == "-1"
+				c.Check(okp, f, as, "format of the stored value", what, ifElse(okp, "FormatFloat with precision -1 (shortest exact)", "FormatFloat with a fixed precision"))
+			}
+			return true
+		})
+	}
+}
+
+// ---- R65 / R67 ----
+
+func init() {
+	register(&Rule{ID: "R65", Title: "remove-while-iterating: an index loop that deletes the current element of the slice it walks steps the index back (or leaves the loop), so the element that slides into the hole is examined too", Min: 0, Run: ruleR65})
+	register(&Rule{ID: "R67", Title: "decoded maps are never nil: a map that is filled by a decode whose error is ignored and then handed out starts as an empty map, not as nil", Min: 1, Run: ruleR67})
+}
+
+func ruleR65(c *Ctx) {
+	p := c.P
+	what := "deleting element i with `s = append(s[:i], s[i+1:]...)` moves element i+1 to position i; a loop that then increments i never looks at it (every second due timer is skipped when several are due at once)"
+	for _, f := range p.Funcs {
+		if f.Body == nil || !isTargetPkg(p, f.Pkg.PkgPath) {
+			continue
+		}
+		in := info(f)
+		inspectNoLit(f.Body, func(n ast.Node) bool {
+			var body *ast.BlockStmt
+			var idx types.Object
+			var ranged ast.Expr
+			switch x := n.(type) {
+			case *ast.ForStmt:
+				if inc, ok := x.Post.(*ast.IncDecStmt); ok && inc.Tok == token.INC {
+					if id, ok := inc.X.(*ast.Ident); ok {
+						idx = objOf(in, id)
+						body = x.Body
+					}
+				}
+			case *ast.RangeStmt:
+				if id, ok := x.Key.(*ast.Ident); ok && id.Name != "_" {
+					idx = objOf(in, id)
+					body = x.Body
+					ranged = x.X
+				}
+			}
+			if body == nil || idx == nil {
+				return true
+			}
+			inspectNoLit(body, func(z ast.Node) bool {
+				as, ok := z.(*ast.AssignStmt)
+				if !ok || len(as.Lhs) != 1 || len(as.Rhs) != 1 {
+					return true
+				}
+				call, ok := unparen(as.Rhs[0]).(*ast.CallExpr)
+				if !ok || !isBuiltin(in, call, "append") || len(call.Args) != 2 || call.Ellipsis == token.NoPos {
+					return true
+				}
+				a0, ok0 := unparen(call.Args[0]).(*ast.SliceExpr)
+				a1, ok1 := unparen(call.Args[1]).(*ast.SliceExpr)
+				if !ok0 || !ok1 || !sameRef(in, a0.X, as.Lhs[0]) || !sameRef(in, a1.X, as.Lhs[0]) || a0.High == nil || a1.Low == nil {
+					return true
+				}
+				hid, ok := unparen(a0.High).(*ast.Ident)
+				if !ok || objOf(in, hid) != idx {
+					return true
+				}
+				// the statements after the removal in the same block: i-- / break / return / continue-with-decrement
+				compensated := false
+				if blk, ok := p.Parent(as).(*ast.BlockStmt); ok {
+					after := false
+					for _, st := range blk.List {
+						if st == ast.Stmt(as) {
+							after = true
+							continue
+						}
+						if !after {
+							continue
+						}
+						switch y := st.(type) {
+						case *ast.IncDecStmt:
+							if id, ok := y.X.(*ast.Ident); ok && objOf(in, id) == idx && y.Tok == token.DEC {
+								compensated = true
+							}
+						case *ast.ReturnStmt:
+							compensated = true
+						case *ast.BranchStmt:
+							if y.Tok == token.BREAK || y.Tok == token.GOTO {
+								compensated = true
+							}
+						}
+					}
+				}
+				_ = ranged
+				c.Check(compensated, f, as, "removal of the current element of "+exprString(as.Lhs[0]), what,
+					ifElse(compensated, "the index is stepped back or the loop is left after the removal", "the loop goes on with the next index after the removal"))
+				return true
+			})
+			return true
+		})
+	}
+}
+
+func ruleR67(c *Ctx) {
+	p := c.P
+	what := "callers index and assign into the map they are handed; a decode that fails (empty or absent value) leaves a `var m map[...]` nil, and the first assignment into it panics with 'assignment to entry in nil map'"
+	for _, f := range p.Funcs {
+		if f.Body == nil || !(isTargetPkg(p, f.Pkg.PkgPath) || strings.HasSuffix(f.Pkg.PkgPath, "/schema")) {
+			continue
+		}
+		in := info(f)
+		inspectNoLit(f.Body, func(n ast.Node) bool {
+			call, ok := n.(*ast.CallExpr)
+			if !ok {
+				return true
+			}
+			fn := callee(in, call)
+			if fn == nil || fn.Pkg() == nil || !strings.HasPrefix(fn.Name(), "Unmarshal") || len(call.Args) != 2 {
+				return true
+			}
+			u, ok := unparen(call.Args[1]).(*ast.UnaryExpr)
+			if !ok || u.Op != token.AND {
+				return true
+			}
+			id, ok := unparen(u.X).(*ast.Ident)
+			if !ok {
+				return true
+			}
+			v, ok := objOf(in, id).(*types.Var)
+			if !ok {
+				return true
+			}
+			if _, isMap := v.Type().Underlying().(*types.Map); !isMap {
+				return true
+			}
+			// error ignored?
+			ignored := false
+			switch par := p.Parent(call).(type) {
+			case *ast.ExprStmt:
+				ignored = true
+			case *ast.AssignStmt:
+				if len(par.Lhs) == 1 {
+					if lid, ok := par.Lhs[0].(*ast.Ident); ok && lid.Name == "_" {
+						ignored = true
+					}
+				}
+			}
+			if !ignored {
+				return true
+			}
+			// handed out?
+			returned := false
+			inspectNoLit(f.Body, func(z ast.Node) bool {
+				if rs, ok := z.(*ast.ReturnStmt); ok {
+					for _, e := range rs.Results {
+						if rid, ok := unparen(e).(*ast.Ident); ok && objOf(in, rid) == types.Object(v) {
+							returned = true
+						}
+					}
+				}
+				return true
+			})
+			if !returned {
+				return true
+			}
+			// declaration has a non-nil initialiser
+			init := false
+			inspectNoLit(f.Body, func(z ast.Node) bool {
+				switch d := z.(type) {
+				case *ast.AssignStmt:
+					if d.Tok == token.DEFINE {
+						for i, l := range d.Lhs {
+							if lid, ok := l.(*ast.Ident); ok && in.Defs[lid] == types.Object(v) && i < len(d.Rhs) {
+								switch r := unparen(d.Rhs[i]).(type) {
+								case *ast.CompositeLit:
+									init = true
+								case *ast.CallExpr:
+									if isBuiltin(in, r, "make") {
+										init = true
+									}
+								}
+							}
+						}
+					}
+				case *ast.ValueSpec:
+					for i, nm := range d.Names {
+						if in.Defs[nm] == types.Object(v) && i < len(d.Values) {
+							if _, ok := unparen(d.Values[i]).(*ast.CompositeLit); ok {
+								init = true
+							}
+						}
+					}
+				}
+				return true
+			})
+			c.Check(init, f, call, "map decoded with the error ignored and returned: "+v.Name(), what, ifElse(init, "the map starts as an empty, non-nil map", "the map is declared without a value (nil) and stays nil when the decode fails"))
+			return true
+		})
+	}
+}
+
+// ---- R68 / R69 ----
+
+func init() {
+	register(&Rule{ID: "R68", Title: "no unsynchronised package-level random source: identifiers are drawn from the goroutine-safe global source or from a source guarded by a lock, never from a shared *rand.Rand", Min: 0, Run: ruleR68})
+	register(&Rule{ID: "R69", Title: "a builder that re-arms itself after handing out its product resets all of its state (whole-struct assignment or every field), so the next product does not start from the previous one's cursor", Min: 2, Run: ruleR69})
+}
+
+func ruleR68(c *Ctx) {
+	p := c.P
+	what := "a *math/rand.Rand is not safe for concurrent use; when it is a package-level variable every goroutine that builds ids shares it, and two racing callers can be handed the same 63 random bits, i.e. the same identifier"
+	seen := 0
+	for _, pk := range p.All {
+		if !(isTargetPkg(p, pk.PkgPath) || strings.HasSuffix(pk.PkgPath, "/schema")) {
+			continue
+		}
+		sc := pk.Types.Scope()
+		for _, nm := range sc.Names() {
+			v, ok := sc.Lookup(nm).(*types.Var)
+			if !ok {
+				continue
+			}
+			t := v.Type()
+			if pt, ok := t.Underlying().(*types.Pointer); ok {
+				t = pt.Elem()
+			}
+			n := namedOf(t)
+			if n == nil || n.Obj().Pkg() == nil || !strings.HasPrefix(n.Obj().Pkg().Path(), "math/rand") || n.Obj().Name() != "Rand" {
+				continue
+			}
+			seen++
+			// every use must be under a held mutex (R22's lockset is not reused here: require a Lock call in the using function)
+			var bad []string
+			for _, f := range p.Funcs {
+				if f.Pkg != pk || f.Body == nil {
+					continue
+				}
+				in := info(f)
+				uses, locks := false, false
+				ast.Inspect(f.Body, func(z ast.Node) bool {
+					if id, ok := z.(*ast.Ident); ok && in.Uses[id] == types.Object(v) {
+						uses = true
+					}
+					if call, ok := z.(*ast.CallExpr); ok {
+						if _, k := mutexCall(in, call); k == "Lock" {
+							locks = true
+						}
+					}
+					return true
+				})
+				if uses && !locks {
+					bad = append(bad, f.QName())
+				}
+			}
+			pos := p.Pos(v.Pos())
+			ob := Obligation{Key: "R68:" + pk.PkgPath + ":package-level random source " + v.Name(), Pos: pos, Func: pk.PkgPath, What: what, OK: len(bad) == 0, NonTrivial: true}
+			if len(bad) > 0 {
+				ob.Witness = "used without holding a lock in: " + strings.Join(bad, ", ")
+			} else {
+				ob.Witness = "every user takes a lock"
+			}
+			c.add(ob)
+		}
+	}
+	if seen == 0 {
+		c.add(Obligation{Key: "R68:no package-level random source", Pos: "-", Func: "-", What: what, OK: true, Witness: "no package-level *rand.Rand exists in the engine, value or schema packages (ids come from the global, goroutine-safe source)", NonTrivial: false})
+	}
+}
+
+func ruleR69(c *Ctx) {
+	p := c.P
+	what := "after the product is handed out the builder starts over; resetting only some of its fields leaves the rest (the cursor to the last node) pointing into the product that was just returned, so the next product is wired to a node of the previous one"
+	for _, f := range p.Funcs {
+		if f.Obj == nil || f.Body == nil || f.Decl == nil || f.Decl.Recv == nil || !strings.HasSuffix(f.Pkg.PkgPath, "/schema") {
+			continue
+		}
+		rn := recvNamed(f.Obj)
+		if rn == nil {
+			continue
+		}
+		st, ok := rn.Underlying().(*types.Struct)
+		if !ok || len(f.Decl.Recv.List) == 0 || len(f.Decl.Recv.List[0].Names) == 0 {
+			continue
+		}
+		in := info(f)
+		recv := in.Defs[f.Decl.Recv.List[0].Names[0]]
+		// does the body call a constructor of its own type?
+		ctor := false
+		inspectNoLit(f.Body, func(n ast.Node) bool {
+			if call, ok := n.(*ast.CallExpr); ok {
+				if fn := callee(in, call); fn != nil {
+					if sig, ok := fn.Type().(*types.Signature); ok && sig.Recv() == nil && sig.Results().Len() == 1 {
+						if pt, ok := sig.Results().At(0).Type().(*types.Pointer); ok {
+							if n2 := namedOf(pt.Elem()); n2 != nil && n2.Obj() == rn.Obj() {
+								ctor = true
+							}
+						}
+					}
+				}
+			}
+			return true
+		})
+		if !ctor {
+			continue
+		}
+		whole := false
+		assigned := map[string]bool{}
+		inspectNoLit(f.Body, func(n ast.Node) bool {
+			as, ok := n.(*ast.AssignStmt)
+			if !ok {
+				return true
+			}
+			for _, l := range as.Lhs {
+				switch x := unparen(l).(type) {
+				case *ast.StarExpr:
+					if id, ok := unparen(x.X).(*ast.Ident); ok && objOf(in, id) == recv {
+						whole = true
+					}
+				case *ast.SelectorExpr:
+					if id, ok := unparen(x.X).(*ast.Ident); ok && objOf(in, id) == recv {
+						assigned[x.Sel.Name] = true
+					}
+				}
+			}
+			return true
+		})
+		var missing []string
+		for i := 0; i < st.NumFields(); i++ {
+			if !assigned[st.Field(i).Name()] {
+				missing = append(missing, st.Field(i).Name())
+			}
+		}
+		okAll := whole || len(missing) == 0
+		c.Check(okAll, f, f.Decl, "reset of the builder in "+f.Obj.Name(), what,
+			ifElse(okAll, ifElse(whole, "the whole receiver is overwritten with a fresh builder", "every field is re-assigned"), "fields not reset: "+strings.Join(missing, ", ")))
+	}
+}
+
+// ---- R70: snapshot completeness; R71: decode target freshness ----
+
+func init() {
+	register(&Rule{ID: "R70", Title: "snapshot completeness: the id generator's snapshot serialises the underlying generator's own snapshot value, not a hand-picked subset of its fields", Min: 1, Run: ruleR70})
+	register(&Rule{ID: "R71", Title: "decode target freshness: a document is decoded into a fresh zero value, never into a value whose pointer fields alias package-level defaults", Min: 1, Run: ruleR71})
+}
+
+func ruleR70(c *Ctx) {
+	p := c.P
+	what := "a generator restored from a snapshot must not re-issue an id given out before the snapshot; that needs the wall-clock high-water mark and drift state, which only the underlying generator's Snapshot() value carries completely"
+	for _, f := range p.Funcs {
+		if f.Obj == nil || f.Obj.Name() != "Snapshot" || f.Pkg.PkgPath != pathID || f.Body == nil {
+			continue
+		}
+		in := info(f)
+		// only wrappers: the receiver has a field (or embeds a type) with a Snapshot method of its own
+		wraps := false
+		if rn := recvNamed(f.Obj); rn != nil {
+			if st, ok := rn.Underlying().(*types.Struct); ok {
+				for i := 0; i < st.NumFields(); i++ {
+					ms := types.NewMethodSet(st.Field(i).Type())
+					for j := 0; j < ms.Len(); j++ {
+						if ms.At(j).Obj().Name() == "Snapshot" {
+							wraps = true
+						}
+					}
+				}
+			}
+		}
+		if !wraps {
+			continue
+		}
+		// the serialised value must be (derived from) a call of another Snapshot method
+		ok := false
+		inspectNoLit(f.Body, func(n ast.Node) bool {
+			call, isCall := n.(*ast.CallExpr)
+			if !isCall {
+				return true
+			}
+			fn := callee(in, call)
+			if fn == nil || !strings.HasPrefix(fn.Name(), "Marshal") {
+				return true
+			}
+			for _, a := range call.Args {
+				if exprMentionsAny(a, func(z ast.Node) bool {
+					c2, isC := z.(*ast.CallExpr)
+					if !isC {
+						return false
+					}
+					f2 := callee(in, c2)
+					return f2 != nil && f2.Name() == "Snapshot" && f2 != f.Obj
+				}) {
+					ok = true
+				}
+			}
+			return true
+		})
+		c.Check(ok, f, f.Decl, "what the snapshot serialises", what, ifElse(ok, "the marshalled value is the underlying generator's Snapshot()", "the marshalled value is not the underlying generator's Snapshot()"))
+	}
+}
+
+func ruleR71(c *Ctx) {
+	p := c.P
+	what := "encoding/xml writes attribute values *through* existing non-nil pointers; decoding into a value whose pointer fields point at package-level defaults overwrites those shared defaults, so every later (and earlier) model that aliases them reports the last parsed document's values"
+	// functions that return a value holding the address of a package-level variable
+	aliasing := map[*types.Func]string{}
+	for _, f := range p.Funcs {
+		if f.Obj == nil || f.Body == nil || !strings.HasSuffix(f.Pkg.PkgPath, "/schema") {
+			continue
+		}
+		in := info(f)
+		inspectNoLit(f.Body, func(n ast.Node) bool {
+			u, ok := n.(*ast.UnaryExpr)
+			if !ok || u.Op != token.AND {
+				return true
+			}
+			if id, ok := unparen(u.X).(*ast.Ident); ok {
+				if v, ok := in.Uses[id].(*types.Var); ok && v.Parent() == f.Pkg.Types.Scope() {
+					aliasing[f.Obj] = v.Name()
+				}
+			}
+			return true
+		})
+	}
+	for _, f := range p.Funcs {
+		if f.Body == nil || !(isTargetPkg(p, f.Pkg.PkgPath) || strings.HasSuffix(f.Pkg.PkgPath, "/schema")) {
+			continue
+		}
+		in := info(f)
+		inspectNoLit(f.Body, func(n ast.Node) bool {
+			call, ok := n.(*ast.CallExpr)
+			if !ok {
+				return true
+			}
+			fn := callee(in, call)
+			if fn == nil || fn.Pkg() == nil || fn.Pkg().Path() != "encoding/xml" || (fn.Name() != "Unmarshal" && fn.Name() != "Decode" && fn.Name() != "DecodeElement") || len(call.Args) == 0 {
+				return true
+			}
+			dst := call.Args[len(call.Args)-1]
+			if fn.Name() == "DecodeElement" {
+				dst = call.Args[0]
+			}
+			r := rootIdent(dst)
+			if r == nil {
+				return true
+			}
+			v, ok := objOf(in, r).(*types.Var)
+			if !ok || isParam(f, v) {
+				return true // the caller chose the target
+			}
+			// initialiser of v
+			from := ""
+			inspectNoLit(f.Body, func(z ast.Node) bool {
+				as, ok := z.(*ast.AssignStmt)
+				if !ok {
+					return true
+				}
+				for i, l := range as.Lhs {
+					if lid, ok := l.(*ast.Ident); ok && objOf(in, lid) == types.Object(v) && i < len(as.Rhs) {
+						if c2, ok := unparen(as.Rhs[i]).(*ast.CallExpr); ok {
+							if f2 := callee(in, c2); f2 != nil {
+								if nm, bad := aliasing[f2]; bad {
+									from = f2.Name() + " (stores &" + nm + ")"
+								}
+							}
+						}
+					}
+				}
+				return true
+			})
+			c.Check(from == "", f, call, "target of "+fn.Name(), what, ifElse(from == "", "the target is a fresh value", "the target was produced by "+from))
 			return true
 		})
 	}
